@@ -141,7 +141,10 @@ fn gen(d: &Desc, avail: usize, lim: &Limits) -> Vec<Value> {
         Desc::Unit => vec![Value::Unit],
         Desc::Prim { size, .. } | Desc::PScalar { size, .. } => leaf_alphabet(*size, lim.leaf),
         Desc::Bool => vec![Value::Scalar(1), Value::Scalar(0)],
-        Desc::CEnum { count, .. } => (0..*count).rev().map(|i| Value::Scalar(i as u128)).collect(),
+        Desc::CEnum { count, discs, .. } => match discs {
+            Some(d) => d.iter().rev().map(|x| Value::Scalar(*x)).collect(),
+            None => (0..*count).rev().map(|i| Value::Scalar(i as u128)).collect(),
+        },
         Desc::Array(e, n) => {
             let al = gen(e, e.size(), lim);
             if *n == 0 || al.is_empty() {
